@@ -18,6 +18,7 @@
 From Coq Require Import List Bool ZArith QArith.
 From GV Require Import Base.Outcome Model.GState Model.Classic Model.Gnp Spec.GnpDef.
 From GV Require Import Proofs.GnpOk Proofs.GensCreationOk Proofs.GensOk Gen.KarateData.
+From GV Require Import Model.Creation Model.Query Proofs.WFDefs Proofs.DegreeOk Proofs.GensWF.
 Import ListNotations.
 Open Scope Z_scope.
 
@@ -101,3 +102,35 @@ Theorem C16_karate_graph :
             node_names g = zrange 34 /\ directed (sp g) = false /\ multi (sp g) = false /\
             edge_pairs g = zachary_ref.
 Proof. exact karate_graph_is_zachary. Qed.
+
+(* LINK TO THE GRAPH-STRUCTURE CORE.  Every graph state any of the three generators returns
+   (complete_graph for every n and directedness; fast_gnp_random_graph for EVERY n, p, gap stream;
+   karate_club_graph for ANY adjacency literal) is a state of a mutation history from the empty
+   graph, hence satisfies the coherence invariant WF of all twelve fields (name type Z with
+   Z.eqb / Z.ltb), and carries the GraphSpecs the generator names.  Every theorem of C01 / C02 /
+   C09 / C15 stated for WF graphs therefore applies to generator output. *)
+Theorem C16_generators_wf :
+  (forall n dir g, complete_graph n dir = Ok g ->
+     @WF Z unit Z.eqb Z.ltb g /\ sp g = with_create (if dir then specs_directed else specs_undirected)) /\
+  (forall n p dir gaps g, fast_gnp_random_graph n p dir gaps = Ok g ->
+     @WF Z unit Z.eqb Z.ltb g /\ sp g = with_create (if dir then specs_directed else specs_undirected)) /\
+  (forall dat nn g, karate_club_graph dat nn = Ok g ->
+     @WF Z unit Z.eqb Z.ltb g /\ sp g = with_keep_last specs_undirected).
+Proof. exact generators_wf. Qed.
+
+(* non-vacuity: under the hypotheses of C16_complete / C16_gnp_structural / C16_karate_graph the
+   generators do return a graph, and it is WF *)
+Theorem C16_generators_wf_total :
+  (forall n dir, exists g, complete_graph n dir = Ok g /\ @WF Z unit Z.eqb Z.ltb g) /\
+  (forall n p dir gaps, 0 <= n <= i32_max -> p_valid p ->
+     Forall (fun k => 0 <= k) gaps -> gnp_slots n dir < Z.of_nat (length gaps) ->
+     exists g, fast_gnp_random_graph n p dir gaps = Ok g /\ @WF Z unit Z.eqb Z.ltb g) /\
+  (exists g, karate_club_graph karate_rows karate_node_bound = Ok g /\ @WF Z unit Z.eqb Z.ltb g).
+Proof. exact generators_wf_total. Qed.
+
+(* one structure theorem (the handshake identity of C09) instantiated at generator output *)
+Theorem C16_complete_graph_handshake : forall n dir g,
+  complete_graph n dir = Ok g ->
+  sum_over (fun x => out_deg Z.eqb g x + in_deg Z.eqb g x)%nat (names g)
+  = (2 * length (flat_map snd (edges g)))%nat.
+Proof. exact complete_graph_handshake. Qed.
